@@ -406,52 +406,145 @@ Proof.
   rewrite firstn_app_exact by reflexivity. reflexivity.
 Qed.
 
-(* every delivery is justified by a prefix of the buffered bytes that is the spec ADU of the
-   delivered (pdu, unit): for EVERY receiver state, header content and chunk *)
+(* ------------------------------------------------------------------ one loop iteration after checkFrame = True *)
+
+Lemma wfb_firstn n l : wfb l = true -> wfb (firstn n l) = true.
+Proof. revert n. induction l as [|x t IH]; intros [|n] H; cbn in *; try reflexivity. apply andb_prop in H. destruct H as [H1 H2]. rewrite H1, IH by exact H2. reflexivity. Qed.
+
+Lemma wfb_skipn n l : wfb l = true -> wfb (skipn n l) = true.
+Proof. revert n. induction l as [|x t IH]; intros [|n] H; cbn in *; try reflexivity; try exact H. apply andb_prop in H. apply IH. tauto. Qed.
+
+(* _process / advanceFrame on the state checkFrame leaves behind *)
+Lemma rtu_process_spec cfg st2 u body c0 c1 rest :
+  r_buf st2 = (u :: body) ++ [c0; c1] ++ rest -> h_uid (r_hdr st2) = Some (zb u) ->
+  h_len (r_hdr st2) = Some (zlen (u :: body) + 2) -> (1 <= length body)%nat ->
+  rtu_process cfg st2 =
+    match cf_dec cfg body with
+    | DMsg => ({| r_buf := rest; r_hdr := hdr_empty |}, [(body, zb u)], FOk)
+    | DNone => (st2, [], FExn ModbusIOExc)
+    | DRaise e => (st2, [], FExn e)
+    | DMissing => (st2, [], FMissing)
+    end /\
+  rtu_advance st2 = {| r_buf := rest; r_hdr := hdr_empty |}.
+Proof.
+  intros Hb Hu Hl Hn.
+  assert (A : rtu_advance st2 = {| r_buf := rest; r_hdr := hdr_empty |}).
+  { unfold rtu_advance. rewrite Hl, rc_adv_closed, Hb. rewrite app_assoc.
+    rewrite pyslice_suffix by (rewrite zlen_app; reflexivity). reflexivity. }
+  split; [|exact A].
+  unfold rtu_process, rtu_get_frame. rewrite Hl, rc_get_start_closed, rc_get_end_closed, rc_get_cond_closed.
+  replace (zlen (u :: body) + 2 - 2) with (zlen [u] + zlen body) by (unfold zlen; cbn [length]; lia).
+  rewrite Hb. change ((u :: body) ++ [c0; c1] ++ rest) with ([u] ++ body ++ ([c0; c1] ++ rest)).
+  rewrite pyslice_mid by reflexivity.
+  replace (zlen [u] + zlen body >? 0) with true by (unfold zlen; cbn [length]; lia).
+  destruct (cf_dec cfg body); try reflexivity. rewrite Hu, A. reflexivity.
+Qed.
+
+Lemma rtu_ready_true_len cfg st st1 : rtu_ready cfg st = (st1, Ok true) -> (2 <= length (r_buf st))%nat.
+Proof.
+  unfold rtu_ready. rewrite rc_ready_closed. destruct (zlen (r_buf st) >? 1) eqn:E; [|intros H; discriminate H].
+  intros _. unfold zlen in E. lia.
+Qed.
+
+Lemma rtu_ready_buf' cfg st st1 r : rtu_ready cfg st = (st1, r) -> r_buf st1 = r_buf st.
+Proof. intros H. pose proof (rtu_ready_buf cfg st) as B. rewrite H in B. exact B. Qed.
+
+(* ------------------------------------------------------------------ the while loop has enough fuel *)
+Lemma rtu_loop_fuel cfg : known_rules (cf_rules cfg) -> forall fuel st acc,
+  wfb (r_buf st) = true -> (length (r_buf st) + 1 <= fuel)%nat ->
+  snd (rtu_loop fuel cfg st acc) <> FOutOfFuel.
+Proof.
+  intros Hk. induction fuel as [|k IH]; intros st acc Hw Hf; [lia|]. cbn [rtu_loop].
+  destruct (rtu_ready cfg st) as [st1 [[|]|e]] eqn:R; try (cbn [snd]; discriminate).
+  pose proof (rtu_ready_buf' _ _ _ _ R) as B1. pose proof (rtu_ready_true_len _ _ _ R) as L2.
+  destruct (rtu_check cfg st1) as [st2 [[|]|e]] eqn:C; try (cbn [snd]; discriminate).
+  - apply rtu_check_true in C; [|exact Hk|rewrite B1; exact Hw].
+    destruct C as (u & body & c0 & c1 & rest & Hsplit & Hb2 & Hu & Hl & Hlen & _).
+    assert (Hb2' : r_buf st2 = (u :: body) ++ [c0; c1] ++ rest) by (rewrite Hb2; exact Hsplit).
+    destruct (rtu_process_spec cfg st2 u body c0 c1 rest Hb2' Hu Hl Hlen) as [P A].
+    assert (Hwr : wfb rest = true).
+    { rewrite B1 in Hsplit. rewrite Hsplit in Hw. rewrite !wfb_app in Hw. apply andb_prop in Hw. destruct Hw as [_ Hw]. apply andb_prop in Hw. tauto. }
+    assert (Hlr : (length rest + 1 <= k)%nat).
+    { rewrite B1 in Hsplit. rewrite Hsplit in Hf. rewrite !app_length in Hf. cbn [length] in Hf. lia. }
+    destruct (validate_unit cfg _) as [[|]|e]; try (cbn [snd]; discriminate).
+    + rewrite P. destruct (cf_dec cfg body); try (cbn [snd]; discriminate). apply IH; assumption.
+    + rewrite A. apply IH; assumption.
+  - destruct (r_buf st2); [|cbn [snd]; discriminate]. apply IH; [reflexivity|cbn [rtu_reset r_buf length]; lia].
+Qed.
+
+Theorem rtu_recv_no_fuel_out cfg st chunk : known_rules (cf_rules cfg) -> wfb (r_buf st ++ chunk) = true ->
+  snd (rtu_recv cfg st chunk) <> FOutOfFuel.
+Proof. intros Hk Hw. unfold rtu_recv. apply rtu_loop_fuel; [exact Hk|exact Hw|cbn [r_buf]; lia]. Qed.
+
+(* ------------------------------------------------------------------ C07: the delivery gate, for the whole drain loop *)
+Definition rtu_justified (buf : bytes) (d : delivered) : Prop :=
+  exists u pre rest, buf = pre ++ spec_adu_rtu u (fst d) ++ rest /\ snd d = Z.of_N u /\
+                     crc_ok (spec_adu_rtu u (fst d)) = true /\ spec_rx_rtu (spec_adu_rtu u (fst d)) = Some (fst d, u).
+
+Lemma rtu_justified_shift pre buf d : rtu_justified buf d -> rtu_justified (pre ++ buf) d.
+Proof. intros (u & p & r & E & H). exists u, (pre ++ p), r. rewrite E, <- app_assoc. split; [reflexivity|exact H]. Qed.
+
+Lemma rtu_loop_gate cfg : known_rules (cf_rules cfg) -> forall fuel st acc st' ds x,
+  wfb (r_buf st) = true -> rtu_loop fuel cfg st acc = (st', ds, x) ->
+  exists new, ds = acc ++ new /\ forall d, In d new -> rtu_justified (r_buf st) d.
+Proof.
+  intros Hk. induction fuel as [|k IH]; intros st acc st' ds x Hw H; cbn [rtu_loop] in H.
+  { inversion H. exists []. split; [rewrite app_nil_r; reflexivity|intros ? []]. }
+  assert (Stop : forall s y, (s, acc, y) = (st', ds, x) -> exists new, ds = acc ++ new /\ forall d, In d new -> rtu_justified (r_buf st) d).
+  { intros s y E. inversion E. exists []. split; [rewrite app_nil_r; reflexivity|intros ? []]. }
+  destruct (rtu_ready cfg st) as [st1 [[|]|e]] eqn:R; try (eapply Stop; exact H).
+  pose proof (rtu_ready_buf' _ _ _ _ R) as B1.
+  destruct (rtu_check cfg st1) as [st2 [[|]|e]] eqn:C; try (eapply Stop; exact H).
+  - apply rtu_check_true in C; [|exact Hk|rewrite B1; exact Hw].
+    destruct C as (u & body & c0 & c1 & rest & Hsplit & Hb2 & Hu & Hl & Hlen & Hcrc).
+    assert (Hb2' : r_buf st2 = (u :: body) ++ [c0; c1] ++ rest) by (rewrite Hb2; exact Hsplit).
+    destruct (rtu_process_spec cfg st2 u body c0 c1 rest Hb2' Hu Hl Hlen) as [P A].
+    rewrite B1 in Hsplit.
+    assert (Hws : wfb (u :: body) = true /\ (c0 < 256)%N /\ (c1 < 256)%N /\ wfb rest = true).
+    { rewrite Hsplit in Hw. rewrite !wfb_app in Hw. apply andb_prop in Hw. destruct Hw as [H1 Hw]. apply andb_prop in Hw. destruct Hw as [H2 H3].
+      cbn in H2. unfold byteb in H2. repeat split; try assumption; lia. }
+    destruct Hws as (Hwb & H0 & H1 & Hwr).
+    destruct (crc_split c0 c1 H0 H1) as [Elo Ehi].
+    assert (Espec : spec_adu_rtu u body = (u :: body) ++ [c0; c1]).
+    { unfold spec_adu_rtu, with_crc. rewrite Hcrc, Elo, Ehi. reflexivity. }
+    assert (Hbuf : r_buf st = spec_adu_rtu u body ++ rest) by (rewrite Hsplit, Espec, <- app_assoc; reflexivity).
+    assert (Jd : rtu_justified (r_buf st) (body, zb u)).
+    { exists u, [], rest. cbn [fst snd app]. split; [exact Hbuf|]. split; [reflexivity|].
+      split; [rewrite Espec; apply crc_ok_app; exact Hcrc | rewrite Espec; apply spec_rx_rtu_app; assumption]. }
+    assert (Shift : forall d, rtu_justified rest d -> rtu_justified (r_buf st) d)
+      by (intros d J; rewrite Hbuf; apply rtu_justified_shift; exact J).
+    destruct (validate_unit cfg _) as [[|]|e]; try (eapply Stop; exact H).
+    + rewrite P in H. destruct (cf_dec cfg body).
+      * apply IH in H; [|exact Hwr]. destruct H as (new & -> & Hj). cbn [r_buf] in Hj.
+        exists ((body, zb u) :: new). split; [rewrite <- app_assoc; reflexivity|].
+        intros d [<-|Hin]; [exact Jd | apply Shift, Hj, Hin].
+      * inversion H. exists []. split; [reflexivity|intros ? []].
+      * inversion H. exists []. split; [reflexivity|intros ? []].
+      * inversion H. exists []. split; [reflexivity|intros ? []].
+    + rewrite A in H. apply IH in H; [|exact Hwr]. destruct H as (new & -> & Hj). cbn [r_buf] in Hj.
+      exists new. split; [reflexivity|]. intros d Hin. apply Shift, Hj, Hin.
+  - destruct (r_buf st2) eqn:E2; [|eapply Stop; exact H].
+    apply IH in H; [|reflexivity]. destruct H as (new & -> & Hj). exists new. split; [reflexivity|].
+    intros d Hin. destruct (Hj d Hin) as (u & pre & rest & E & _). cbn [rtu_reset r_buf] in E.
+    exfalso. symmetry in E. apply app_eq_nil in E. destruct E as [_ E]. apply app_eq_nil in E. destruct E as [E _].
+    unfold spec_adu_rtu, with_crc in E. cbn [app] in E. discriminate E.
+Qed.
+
+(* every delivery of a call is justified by a span of the buffered bytes that is exactly the spec
+   ADU of the delivered (pdu, unit): for EVERY receiver state, header content and chunk *)
 Theorem rtu_gate cfg st chunk st' ds x :
   known_rules (cf_rules cfg) -> wfb (r_buf st ++ chunk) = true ->
   rtu_recv cfg st chunk = (st', ds, x) ->
   forall pdu uid, In (pdu, uid) ds ->
-    exists u rest, r_buf st ++ chunk = spec_adu_rtu u pdu ++ rest /\ uid = Z.of_N u /\
-                   crc_ok (spec_adu_rtu u pdu) = true /\ spec_rx_rtu (spec_adu_rtu u pdu) = Some (pdu, u).
+    exists u pre rest, r_buf st ++ chunk = pre ++ spec_adu_rtu u pdu ++ rest /\ uid = Z.of_N u /\
+                       crc_ok (spec_adu_rtu u pdu) = true /\ spec_rx_rtu (spec_adu_rtu u pdu) = Some (pdu, u).
 Proof.
-  intros Hk Hw. unfold rtu_recv.
-  pose proof (rtu_ready_buf cfg {| r_buf := r_buf st ++ chunk; r_hdr := r_hdr st |}) as Hb. cbn [r_buf] in Hb.
-  destruct (rtu_ready cfg _) as [st1 [[|]|e]]; cbn [fst] in Hb;
-    try (intros H; inversion H; subst; intros ? ? []).
-  destruct (rtu_check cfg st1) as [st2 [[|]|e]] eqn:C;
-    try (intros H; inversion H; subst; intros ? ? []).
-  2: { destruct (r_buf st2); intros H; inversion H; subst; intros ? ? []. }
-  apply rtu_check_true in C; [|exact Hk|rewrite Hb; exact Hw].
-  destruct C as (u & body & c0 & c1 & rest & Hsplit & Hb2 & Hu & Hl & Hlen & Hcrc).
-  destruct (validate_unit cfg (h_uid (r_hdr st2))) as [[|]|e];
-    try (intros H; inversion H; subst; intros ? ? []).
-  unfold rtu_process, rtu_get_frame. rewrite Hl, rc_get_start_closed, rc_get_end_closed, rc_get_cond_closed.
-  replace (zlen (u :: body) + 2 - 2) with (zlen [u] + zlen body) by (unfold zlen; cbn [length]; lia).
-  rewrite Hb2, Hsplit.
-  change ((u :: body) ++ [c0; c1] ++ rest) with ([u] ++ body ++ ([c0; c1] ++ rest)).
-  rewrite pyslice_mid by reflexivity.
-  replace (zlen [u] + zlen body >? 0) with true by (unfold zlen; cbn [length]; lia).
-  destruct (cf_dec cfg body); try (intros H; inversion H; subst; intros ? ? []).
-  rewrite Hu. intros H. inversion H. subst. intros pdu uid [E|[]]. inversion E. subst.
-  assert (Hwb : wfb (u :: pdu) = true /\ (c0 < 256)%N /\ (c1 < 256)%N).
-  { rewrite <- Hb, Hsplit in Hw.
-    change ([u] ++ pdu ++ [c0; c1] ++ rest) with ((u :: pdu) ++ [c0; c1] ++ rest) in Hw.
-    rewrite wfb_app in Hw. apply andb_prop in Hw. destruct Hw as [Hw1 Hw2].
-    cbn in Hw2. unfold byteb in Hw2. split; [exact Hw1|]. lia. }
-  destruct Hwb as (Hwb & H0 & H1).
-  destruct (crc_split c0 c1 H0 H1) as [Elo Ehi].
-  assert (Espec : spec_adu_rtu u pdu = (u :: pdu) ++ [c0; c1]).
-  { unfold spec_adu_rtu, with_crc. rewrite Hcrc, Elo, Ehi. reflexivity. }
-  exists u, rest. split.
-  { rewrite Hb in Hsplit. rewrite Hsplit, Espec. rewrite <- app_assoc. reflexivity. }
-  split; [reflexivity|].
-  assert (Hok : crc_ok (spec_adu_rtu u pdu) = true) by (rewrite Espec; apply crc_ok_app; exact Hcrc).
-  split; [exact Hok|].
-  rewrite Espec. apply spec_rx_rtu_app; assumption.
+  intros Hk Hw R pdu uid Hin. unfold rtu_recv in R.
+  apply (rtu_loop_gate cfg Hk) in R; [|exact Hw]. destruct R as (new & -> & Hj). cbn [app] in Hin.
+  exact (Hj (pdu, uid) Hin).
 Qed.
 
-(* ------------------------------------------------------------------ C03 / C06: what one call does on valid traffic *)
+(* ------------------------------------------------------------------ C03 / C06: valid traffic *)
 
 (* size rules that depend on the function code and at most one byte-count byte *)
 Definition simple_rule (r : size_rule) : bool :=
@@ -480,10 +573,13 @@ Proof.
   - left. rewrite py_index_short by lia. reflexivity.
 Qed.
 
-Record valid_frame (cfg : fcfg) (u : N) (pdu : bytes) : Prop := {
+(* [valid_frame cfg a u pdu]: a well-formed frame for unit u whose size rule is right for it;
+   a = true: the unit filter accepts it and the decoder accepts the PDU (it must be delivered);
+   a = false: the unit filter rejects it (it must be skipped, silently) *)
+Record valid_frame (cfg : fcfg) (a : bool) (u : N) (pdu : bytes) : Prop := {
   vf_wfb : wfb (u :: pdu) = true;
-  vf_dec : cf_dec cfg pdu = DMsg;
-  vf_unit : validate_unit cfg (Some (zb u)) = Ok true;
+  vf_dec : a = true -> cf_dec cfg pdu = DMsg;
+  vf_unit : validate_unit cfg (Some (zb u)) = Ok a;
   vf_fc : exists fc data, pdu = fc :: data /\
           simple_rule (lookup_rule (cf_rules cfg) (zb fc)) = true /\
           frame_size (lookup_rule (cf_rules cfg) (zb fc)) (spec_adu_rtu u pdu) = Ok (zlen (spec_adu_rtu u pdu))
@@ -508,7 +604,7 @@ Lemma rc_init_hdr : r_hdr rtu_init = {| h_uid := Some 0; h_len := Some 0; h_crc 
 Proof. reflexivity. Qed.
 
 (* populateHeader on a buffer that starts with the valid frame f *)
-Lemma rtu_populate_complete cfg u pdu q h : valid_frame cfg u pdu ->
+Lemma rtu_populate_complete cfg a u pdu q h : valid_frame cfg a u pdu ->
   exists c, rtu_populate cfg {| r_buf := spec_adu_rtu u pdu ++ q; r_hdr := h |} =
     ({| r_buf := spec_adu_rtu u pdu ++ q;
         r_hdr := {| h_uid := Some (zb u); h_len := Some (zlen (spec_adu_rtu u pdu)); h_crc := Some c |} |}, None).
@@ -522,34 +618,34 @@ Proof.
   rewrite E0, E1. rewrite (simple_rule_ext _ _ _ q Hs Hsz). eexists. reflexivity.
 Qed.
 
-(* LEMMA A: the buffered bytes start with a complete valid frame: exactly that frame is
-   delivered and the rest stays buffered with an empty header *)
-Lemma rtu_recv_complete cfg st chunk u pdu q :
-  valid_frame cfg u pdu -> hdr_waiting (spec_adu_rtu u pdu) (r_hdr st) ->
-  r_buf st ++ chunk = spec_adu_rtu u pdu ++ q -> wfb q = true ->
-  rtu_recv cfg st chunk = ({| r_buf := q; r_hdr := hdr_empty |}, [(pdu, zb u)], FOk).
+(* ITERATION A: the buffer starts with a complete valid frame: one iteration of the loop
+   delivers it (or skips it when its unit is not served) and continues on what follows *)
+Lemma rtu_loop_complete cfg k h a u pdu q acc :
+  valid_frame cfg a u pdu -> hdr_waiting (spec_adu_rtu u pdu) h -> wfb q = true ->
+  rtu_loop (S k) cfg {| r_buf := spec_adu_rtu u pdu ++ q; r_hdr := h |} acc =
+  rtu_loop k cfg {| r_buf := q; r_hdr := hdr_empty |} (acc ++ if a then [(pdu, zb u)] else []).
 Proof.
-  intros V Hh Hbuf Hwq.
+  intros V Hh Hwq.
   pose proof V as [Hw Hd Hu (fc & data & Hp & Hs & Hsz)].
   destruct (spec_adu_rtu_shape u pdu Hw) as (lo & hi & Esp & Hlo & Hhi & Hcrc).
   set (f := spec_adu_rtu u pdu) in *.
   assert (Hlen : zlen f = zlen (u :: pdu) + 2) by (rewrite Esp, zlen_app; reflexivity).
   assert (Hf4 : 4 <= zlen f) by (rewrite Hlen; subst pdu; unfold zlen; cbn [length]; lia).
-  unfold rtu_recv. rewrite Hbuf.
+  cbn [rtu_loop].
   (* isFrameReady *)
-  assert (R : exists h1, rtu_ready cfg {| r_buf := f ++ q; r_hdr := r_hdr st |} =
+  assert (R : exists h1, rtu_ready cfg {| r_buf := f ++ q; r_hdr := h |} =
                          ({| r_buf := f ++ q; r_hdr := h1 |}, Ok true)).
   { unfold rtu_ready. cbn [r_buf r_hdr]. rewrite rc_ready_closed.
     pose proof (zlen_nonneg q). rewrite zlen_app.
     replace (zlen f + zlen q >? 1) with true by lia.
     destruct Hh as [Hh | [Hh | [Hne Hl]]].
     - rewrite Hh. cbn [hdr_is_empty hdr_empty h_uid h_len h_crc].
-      destruct (rtu_populate_complete cfg u pdu q hdr_empty V) as [c P]. fold f in P. rewrite P.
+      destruct (rtu_populate_complete cfg a u pdu q hdr_empty V) as [c P]. fold f in P. rewrite P.
       cbn [hdr_is_empty h_uid h_len h_crc r_hdr]. eexists. rewrite (rc_ready2_closed (zlen f + zlen q) (zlen f)).
       replace (zlen f + zlen q >=? zlen f) with true by lia. reflexivity.
     - rewrite Hh, rc_init_hdr. cbn [hdr_is_empty h_uid h_len h_crc r_hdr]. eexists. rewrite (rc_ready2_closed (zlen f + zlen q) 0).
       replace (zlen f + zlen q >=? 0) with true by lia. reflexivity.
-    - rewrite Hne. destruct (r_hdr st) as [hu hl hc] eqn:Eh. cbn [h_len] in Hl. subst hl.
+    - rewrite Hne. destruct h as [hu hl hc]. cbn [h_len] in Hl. subst hl.
       cbn [hdr_is_empty h_uid h_len h_crc r_hdr] in *. rewrite Hne. cbn [h_len]. eexists. rewrite (rc_ready2_closed (zlen f + zlen q) (zlen f)).
       replace (zlen f + zlen q >=? zlen f) with true by lia. reflexivity. }
   destruct R as [h1 R]. rewrite R.
@@ -557,7 +653,7 @@ Proof.
   assert (C : exists c, rtu_check cfg {| r_buf := f ++ q; r_hdr := h1 |} =
       ({| r_buf := f ++ q; r_hdr := {| h_uid := Some (zb u); h_len := Some (zlen f); h_crc := Some c |} |}, Ok true)).
   { unfold rtu_check, rtu_check_body.
-    destruct (rtu_populate_complete cfg u pdu q h1 V) as [c P]. fold f in P. rewrite P.
+    destruct (rtu_populate_complete cfg a u pdu q h1 V) as [c P]. fold f in P. rewrite P.
     cbn [r_hdr h_len r_buf]. rewrite rc_chk_data_hi_closed, rc_chk_crc_lo_closed, rc_chk_crc_hi_closed.
     exists c. rewrite !Hlen. rewrite Esp. rewrite <- !app_assoc.
     rewrite (pyslice_prefix (u :: pdu) ([lo; hi] ++ q)) by lia.
@@ -571,49 +667,16 @@ Proof.
     replace (Z.of_N (256 * lo + hi) =? Z.of_N lo * 256 + Z.of_N hi) with true by lia.
     reflexivity. }
   destruct C as [c C]. rewrite C. cbn [r_hdr h_uid]. rewrite Hu.
-  (* _process *)
-  unfold rtu_process, rtu_get_frame. cbn [r_hdr h_len h_uid r_buf].
-  rewrite rc_get_start_closed, rc_get_end_closed, rc_get_cond_closed.
-  rewrite !Hlen. rewrite Esp. rewrite <- !app_assoc.
-  change ((u :: pdu) ++ [lo; hi] ++ q) with ([u] ++ pdu ++ ([lo; hi] ++ q)).
-  rewrite pyslice_mid by (try reflexivity; unfold zlen; cbn [length]; lia).
-  replace (zlen (u :: pdu) + 2 - 2 >? 0) with true by (unfold zlen; cbn [length]; lia). rewrite Hd.
-  unfold rtu_advance. cbn [r_hdr h_len r_buf]. rewrite rc_adv_closed.
-  change ([u] ++ pdu ++ [lo; hi] ++ q) with ((u :: pdu) ++ [lo; hi] ++ q). rewrite app_assoc.
-  rewrite pyslice_suffix by (rewrite zlen_app; reflexivity). reflexivity.
-Qed.
-
-(* whole frame to a fresh receiver *)
-Theorem rtu_whole_frame cfg u pdu : valid_frame cfg u pdu ->
-  rtu_recv cfg rtu_init (spec_adu_rtu u pdu) = ({| r_buf := []; r_hdr := hdr_empty |}, [(pdu, zb u)], FOk).
-Proof.
-  intros V. apply rtu_recv_complete; try exact V.
-  - right. left. reflexivity.
-  - cbn [r_buf rtu_init app]. rewrite app_nil_r. reflexivity.
-  - reflexivity.
-Qed.
-
-(* valid frames, one per read, from any idle state: every one is delivered by its own read *)
-Fixpoint rtu_feed_dels (cfg : fcfg) (st : rstate) (chunks : list bytes) : list delivered * list fexit :=
-  match chunks with
-  | [] => ([], [])
-  | c :: t => let '(st1, ds, x) := rtu_recv cfg st c in
-              let '(ds', xs) := rtu_feed_dels cfg st1 t in (ds ++ ds', x :: xs)
-  end.
-
-Theorem rtu_one_per_read cfg (frames : list (N * bytes)) : forall st,
-  r_buf st = [] -> (r_hdr st = hdr_empty \/ r_hdr st = r_hdr rtu_init) ->
-  Forall (fun f => valid_frame cfg (fst f) (snd f)) frames ->
-  rtu_feed_dels cfg st (map (fun f => spec_adu_rtu (fst f) (snd f)) frames) =
-    (map (fun f => (snd f, zb (fst f))) frames, map (fun _ => FOk) frames).
-Proof.
-  induction frames as [|[u pdu] t IH]; intros st Hb Hh Hall; [reflexivity|].
-  inversion Hall as [|? ? V Ht]. subst. cbn [map rtu_feed_dels fst snd] in *.
-  rewrite (rtu_recv_complete cfg st (spec_adu_rtu u pdu) u pdu []); try exact V.
-  - rewrite (IH {| r_buf := []; r_hdr := hdr_empty |}); [reflexivity|reflexivity|left; reflexivity|exact Ht].
-  - destruct Hh as [-> | ->]; [left|right; left]; reflexivity.
-  - rewrite Hb, app_nil_r. reflexivity.
-  - reflexivity.
+  (* _process / advanceFrame *)
+  destruct (rtu_process_spec cfg {| r_buf := f ++ q; r_hdr := {| h_uid := Some (zb u); h_len := Some (zlen f); h_crc := Some c |} |}
+              u pdu lo hi q) as [P A].
+  { cbn [r_buf]. rewrite Esp, <- app_assoc. reflexivity. }
+  { reflexivity. }
+  { cbn [r_hdr h_len]. rewrite Hlen. reflexivity. }
+  { subst pdu. cbn [length]. lia. }
+  destruct a.
+  - rewrite P, (Hd eq_refl). reflexivity.
+  - rewrite A, app_nil_r. reflexivity.
 Qed.
 
 (* the size oracle of the simple classes is stable under extension and never mistakes a
@@ -650,24 +713,23 @@ Proof.
   rewrite firstn_length, skipn_length. unfold zlen. lia.
 Qed.
 
-(* LEMMA B: the buffered bytes are a strict prefix of a valid frame: nothing is delivered,
-   nothing is raised, the bytes stay buffered and the header still waits for that frame *)
-Lemma rtu_recv_incomplete cfg st chunk u pdu b q :
-  valid_frame cfg u pdu -> hdr_waiting (spec_adu_rtu u pdu) (r_hdr st) ->
-  r_buf st ++ chunk = b -> spec_adu_rtu u pdu = b ++ q -> q <> [] ->
-  exists h', rtu_recv cfg st chunk = ({| r_buf := b; r_hdr := h' |}, [], FOk) /\
+(* ITERATION B: the buffered bytes are a strict prefix of a valid frame: the loop ends, nothing is
+   delivered, nothing is raised, the bytes stay buffered and the header still waits for it *)
+Lemma rtu_loop_incomplete cfg k h a u pdu b q acc :
+  valid_frame cfg a u pdu -> hdr_waiting (spec_adu_rtu u pdu) h ->
+  spec_adu_rtu u pdu = b ++ q -> q <> [] ->
+  exists h', rtu_loop (S k) cfg {| r_buf := b; r_hdr := h |} acc = ({| r_buf := b; r_hdr := h' |}, acc, FOk) /\
              hdr_waiting (spec_adu_rtu u pdu) h'.
 Proof.
-  intros V Hh Hbuf Hf Hq.
+  intros V Hh Hf Hq.
   pose proof V as [Hw Hd Hu (fc & data & Hp & Hs & Hsz)].
   destruct (spec_adu_rtu_shape u pdu Hw) as (lo & hi & Esp & _).
   set (f := spec_adu_rtu u pdu) in *.
   assert (Hlt : zlen b < zlen f).
   { rewrite Hf, zlen_app. destruct q; [congruence|]. unfold zlen. cbn [length]. lia. }
-  unfold rtu_recv. rewrite Hbuf. unfold rtu_ready. cbn [r_buf r_hdr]. rewrite rc_ready_closed.
+  cbn [rtu_loop]. unfold rtu_ready. cbn [r_buf r_hdr]. rewrite rc_ready_closed.
   destruct (zlen b >? 1) eqn:Hb1.
-  2: { exists (r_hdr st). split; [reflexivity|exact Hh]. }
-  (* b = u :: fc :: _ *)
+  2: { exists h. split; [reflexivity|exact Hh]. }
   assert (Hb2 : exists b', b = u :: fc :: b').
   { subst pdu. rewrite Esp in Hf. destruct b as [|x [|y b']]; try (unfold zlen in Hb1; cbn in Hb1; lia).
     cbn in Hf. inversion Hf. subst. eexists. reflexivity. }
@@ -675,10 +737,10 @@ Proof.
   assert (I0 : py_index b 0 = Ok u) by (rewrite Eb; apply py_index_app_head).
   assert (I1 : py_index b 1 = Ok fc) by (rewrite Eb; apply py_index_ok; [lia|reflexivity]).
   pose proof (simple_rule_prefix _ _ _ b q Hs Hsz Hf) as Hsize.
-  assert (Pop : forall h, (exists h1, rtu_populate cfg {| r_buf := b; r_hdr := h |} = ({| r_buf := b; r_hdr := h1 |}, Some IndexError))
-                       \/ (exists c, rtu_populate cfg {| r_buf := b; r_hdr := h |} =
+  assert (Pop : forall h0, (exists h1, rtu_populate cfg {| r_buf := b; r_hdr := h0 |} = ({| r_buf := b; r_hdr := h1 |}, Some IndexError))
+                       \/ (exists c, rtu_populate cfg {| r_buf := b; r_hdr := h0 |} =
                              ({| r_buf := b; r_hdr := {| h_uid := Some (zb u); h_len := Some (zlen f); h_crc := Some c |} |}, None))).
-  { intros h. unfold rtu_populate. cbn [r_buf r_hdr]. rewrite I0, I1.
+  { intros h0. unfold rtu_populate. cbn [r_buf r_hdr]. rewrite I0, I1.
     destruct Hsize as [-> | ->]; [left|right]; eexists; reflexivity. }
   destruct Hh as [Hh | [Hh | [Hne Hl]]].
   - (* header {} *)
@@ -688,7 +750,7 @@ Proof.
     + cbn [hdr_is_empty h_uid h_len h_crc r_hdr]. rewrite (rc_ready2_closed (zlen b) (zlen f)).
       replace (zlen b >=? zlen f) with false by lia.
       eexists. split; [reflexivity|]. right. right. split; reflexivity.
-  - (* the initial header: ready (len 0), checkFrame fails with IndexError, header := {} *)
+  - (* the initial header: ready (len 0), checkFrame fails with IndexError, header := {} , break *)
     rewrite Hh, rc_init_hdr. cbn [hdr_is_empty h_uid h_len h_crc r_hdr].
     rewrite (rc_ready2_closed (zlen b) 0). pose proof (zlen_nonneg b).
     replace (zlen b >=? 0) with true by lia.
@@ -706,71 +768,181 @@ Proof.
         { unfold py_index in C0. destruct (_ || _)%bool; [congruence|]. destruct (nth_error _ _); congruence. }
         subst e0. cbn [caught_by_check r_buf]. rewrite Eb. exists hdr_empty. split; [reflexivity|left; reflexivity].
   - (* header already populated for this frame *)
-    rewrite Hne. destruct (r_hdr st) as [hu hl hc] eqn:Eh. cbn [h_len] in Hl. subst hl.
+    rewrite Hne. destruct h as [hu hl hc]. cbn [h_len] in Hl. subst hl.
     cbn [r_hdr hdr_is_empty h_uid h_len h_crc] in *. rewrite Hne. cbn [h_len].
     rewrite (rc_ready2_closed (zlen b) (zlen f)). replace (zlen b >=? zlen f) with false by lia.
     eexists. split; [reflexivity|]. right. right. split; [exact Hne|reflexivity].
 Qed.
 
-(* ------------------------------------------------------------------ C06: all chunkings with at most one frame completing per read *)
+Lemma rtu_loop_empty cfg k h acc :
+  rtu_loop (S k) cfg {| r_buf := []; r_hdr := h |} acc = ({| r_buf := []; r_hdr := h |}, acc, FOk).
+Proof. cbn [rtu_loop]. unfold rtu_ready. cbn [r_buf]. rewrite rc_ready_closed. reflexivity. Qed.
 
-Definition starts (q : bytes) (fs : list (N * bytes)) : Prop :=
-  match fs with
-  | [] => q = []
-  | (u, p) :: _ => exists q', spec_adu_rtu u p = q ++ q' /\ q' <> []
-  end.
+(* ------------------------------------------------------------------ C06: full chunking independence *)
 
-(* [opr b frames chunks]: with b already buffered, the chunks deliver the bytes of the frames
-   (and nothing else), every read completing at most one frame *)
-Fixpoint opr (b : bytes) (frames : list (N * bytes)) (chunks : list bytes) : Prop :=
-  match chunks with
-  | [] => frames = [] /\ b = []
-  | c :: cs =>
-      match frames with
-      | [] => c = [] /\ b = [] /\ opr [] [] cs
-      | (u, pdu) :: fs =>
-          (exists q, spec_adu_rtu u pdu = (b ++ c) ++ q /\ q <> [] /\ opr (b ++ c) frames cs)
-          \/ (exists q, b ++ c = spec_adu_rtu u pdu ++ q /\ starts q fs /\ opr q fs cs)
-      end
-  end.
+(* a frame of the stream: (accepted by the unit filter?, (unit, PDU)) *)
+Definition frame := (bool * (N * bytes))%type.
+Definition adu_of (f : frame) : bytes := spec_adu_rtu (fst (snd f)) (snd (snd f)).
+Definition msg_of (f : frame) : list delivered := if fst f then [(snd (snd f), zb (fst (snd f)))] else [].
+Definition vf (cfg : fcfg) (f : frame) : Prop := valid_frame cfg (fst f) (fst (snd f)) (snd (snd f)).
+Definition stream (fs : list frame) : bytes := flat_map adu_of fs.
+Definition msgs (fs : list frame) : list delivered := flat_map msg_of fs.
 
-Lemma rtu_recv_idle_empty cfg h : rtu_recv cfg {| r_buf := []; r_hdr := h |} [] = ({| r_buf := []; r_hdr := h |}, [], FOk).
-Proof. unfold rtu_recv, rtu_ready. cbn [r_buf r_hdr app]. rewrite rc_ready_closed. reflexivity. Qed.
+(* q is a strict prefix of the next frame (empty when there is none) *)
+Definition tail_ok (q : bytes) (nxt : list frame) : Prop :=
+  match nxt with [] => q = [] | f :: _ => exists q', adu_of f = q ++ q' /\ q' <> [] end.
 
-Lemma starts_wfb cfg q fs : Forall (fun f => valid_frame cfg (fst f) (snd f)) fs -> starts q fs -> wfb q = true.
+Definition hdr_for (nxt : list frame) (h : rhdr) : Prop :=
+  match nxt with [] => True | f :: _ => hdr_waiting (adu_of f) h end.
+
+Lemma adu_wfb cfg f : vf cfg f -> wfb (adu_of f) = true.
 Proof.
-  destruct fs as [|[u p] t]; cbn [starts]; intros Hall Hs; [subst; reflexivity|].
-  destruct Hs as (q' & E & _). inversion Hall as [|? ? V _]. subst. cbn [fst snd] in V.
-  destruct V as [Hw _ _ _]. destruct (spec_adu_rtu_shape u p Hw) as (lo & hi & Esp & Hlo & Hhi & _).
-  assert (W : wfb (spec_adu_rtu u p) = true).
-  { rewrite Esp, wfb_app, Hw. cbn. unfold byteb. lia. }
-  rewrite E, wfb_app in W. apply andb_prop in W. tauto.
+  destruct f as [a [u p]]. unfold vf, adu_of. cbn [fst snd]. intros [Hw _ _ _].
+  destruct (spec_adu_rtu_shape u p Hw) as (lo & hi & Esp & Hlo & Hhi & _).
+  rewrite Esp, wfb_app, Hw. cbn. unfold byteb. lia.
 Qed.
 
-Theorem rtu_chunked cfg : forall chunks b frames st,
-  r_buf st = b ->
-  match frames with [] => True | (u, pdu) :: _ => hdr_waiting (spec_adu_rtu u pdu) (r_hdr st) end ->
-  Forall (fun f => valid_frame cfg (fst f) (snd f)) frames ->
-  opr b frames chunks ->
-  rtu_feed_dels cfg st chunks = (map (fun f => (snd f, zb (fst f))) frames, map (fun _ => FOk) chunks).
+Lemma stream_wfb cfg fs : Forall (vf cfg) fs -> wfb (stream fs) = true.
 Proof.
-  induction chunks as [|c cs IH]; intros b frames st Hb Hh Hall Ho.
-  - cbn in Ho. destruct Ho as [-> _]. reflexivity.
-  - cbn [opr] in Ho. destruct frames as [|[u pdu] fs].
-    + destruct Ho as (-> & -> & Ho). cbn [rtu_feed_dels map].
-      destruct st as [sb sh]. cbn [r_buf] in Hb. subst sb. rewrite rtu_recv_idle_empty.
-      rewrite (IH [] [] {| r_buf := []; r_hdr := sh |}); try reflexivity; assumption.
-    + inversion Hall as [|? ? V Hfs]. subst. cbn [fst snd] in V.
-      destruct Ho as [(q & Ef & Hq & Ho) | (q & Eb & Hs & Ho)].
-      * destruct (rtu_recv_incomplete cfg st c u pdu (r_buf st ++ c) q V Hh eq_refl Ef Hq) as (h' & R & Hh').
-        cbn [rtu_feed_dels]. rewrite R.
-        rewrite (IH (r_buf st ++ c) ((u, pdu) :: fs) {| r_buf := r_buf st ++ c; r_hdr := h' |});
-          [reflexivity | reflexivity | exact Hh' | exact Hall | exact Ho].
-      * cbn [rtu_feed_dels].
-        rewrite (rtu_recv_complete cfg st c u pdu q V Hh Eb (starts_wfb cfg q fs Hfs Hs)).
-        rewrite (IH q fs {| r_buf := q; r_hdr := hdr_empty |});
-          [reflexivity | reflexivity | | exact Hfs | exact Ho].
-        destruct fs as [|[u' p'] t]; [exact I | left; reflexivity].
+  induction 1 as [|f t V _ IH]; [reflexivity|]. unfold stream. cbn [flat_map]. fold (stream t).
+  rewrite wfb_app, (adu_wfb cfg f V), IH. reflexivity.
+Qed.
+
+Lemma tail_wfb cfg q nxt : Forall (vf cfg) nxt -> tail_ok q nxt -> wfb q = true.
+Proof.
+  destruct nxt as [|f t]; cbn [tail_ok]; intros Hall Hs; [subst; reflexivity|].
+  destruct Hs as (q' & E & _). inversion Hall as [|? ? V _]. subst.
+  pose proof (adu_wfb cfg f V) as W. rewrite E, wfb_app in W. apply andb_prop in W. tauto.
+Qed.
+
+Lemma adu_nonempty f : (1 <= length (adu_of f))%nat.
+Proof. unfold adu_of, spec_adu_rtu, with_crc. rewrite app_length. cbn [length]. lia. Qed.
+
+Lemma stream_len fs : (length fs <= length (stream fs))%nat.
+Proof.
+  induction fs as [|f t IH]; [cbn; lia|]. unfold stream. cbn [flat_map length]. fold (stream t).
+  rewrite app_length. pose proof (adu_nonempty f). lia.
+Qed.
+
+(* the loop drains every complete frame at the head of the buffer and stops at the incomplete tail *)
+Lemma rtu_loop_drain cfg : forall fs fuel nxt q h acc,
+  Forall (vf cfg) fs -> Forall (vf cfg) nxt -> tail_ok q nxt ->
+  hdr_for (fs ++ nxt) h -> (length fs < fuel)%nat ->
+  exists h', rtu_loop fuel cfg {| r_buf := stream fs ++ q; r_hdr := h |} acc
+             = ({| r_buf := q; r_hdr := h' |}, acc ++ msgs fs, FOk) /\ hdr_for nxt h'.
+Proof.
+  induction fs as [|f fs IH]; intros fuel nxt q h acc Hfs Hnxt Ht Hh Hf.
+  - destruct fuel as [|k]; [lia|]. cbn [stream flat_map app msgs]. rewrite app_nil_r.
+    destruct nxt as [|[a [u p]] t].
+    + cbn in Ht. subst q. exists h. split; [apply rtu_loop_empty|exact I].
+    + destruct Ht as (q' & E & Hq'). inversion Hnxt as [|? ? V _]. subst.
+      unfold adu_of in E. cbn [fst snd] in E. unfold vf in V. cbn [fst snd] in V.
+      destruct (rtu_loop_incomplete cfg k h a u p q q' acc V Hh E Hq') as (h' & R & Hw).
+      exists h'. split; [exact R|exact Hw].
+  - destruct fuel as [|k]; [cbn in Hf; lia|].
+    inversion Hfs as [|? ? V Hfs']. subst. destruct f as [a [u p]]. unfold vf in V. cbn [fst snd] in V.
+    unfold stream. cbn [flat_map]. fold (stream fs). unfold adu_of at 1. cbn [fst snd]. rewrite <- app_assoc.
+    rewrite (rtu_loop_complete cfg k h a u p (stream fs ++ q) acc V).
+    + destruct (IH k nxt q hdr_empty (acc ++ (if a then [(p, zb u)] else [])) Hfs' Hnxt Ht) as (h' & R & Hw).
+      * destruct (fs ++ nxt) as [|g t]; [exact I|left; reflexivity].
+      * cbn [length] in Hf. lia.
+      * exists h'. split; [|exact Hw]. rewrite R. unfold msgs. cbn [flat_map]. unfold msg_of at 2. cbn [fst snd].
+        rewrite <- app_assoc. reflexivity.
+    + exact Hh.
+    + rewrite wfb_app, (stream_wfb cfg fs Hfs'), (tail_wfb cfg q nxt Hnxt Ht). reflexivity.
+Qed.
+
+(* a prefix s of the byte stream of frames R splits into whole frames and a strict prefix *)
+Lemma stream_split : forall (R : list frame) s t, stream R = s ++ t ->
+  exists R1 R2 q, R = R1 ++ R2 /\ s = stream R1 ++ q /\ tail_ok q R2 /\ stream R2 = q ++ t.
+Proof.
+  induction R as [|f R IH]; intros s t H.
+  - cbn in H. symmetry in H. apply app_eq_nil in H. destruct H as [-> ->].
+    exists [], [], []. repeat split; reflexivity.
+  - unfold stream in H. cbn [flat_map] in H. fold (stream R) in H.
+    destruct (app_eq_app _ _ _ _ H) as (l & [[E1 E2] | [E1 E2]]).
+    + destruct l as [|x l].
+      * rewrite app_nil_r in E1. cbn [app] in E2. subst t.
+        destruct (IH [] (stream R) eq_refl) as (R1 & R2 & q & ER & Es & Ht & E3).
+        exists (f :: R1), R2, q. split; [rewrite ER; reflexivity|].
+        split; [unfold stream; cbn [flat_map]; fold (stream R1); rewrite <- E1, <- app_assoc, <- Es, app_nil_r; reflexivity|].
+        split; [exact Ht|exact E3].
+      * exists [], (f :: R), s. split; [reflexivity|]. split; [reflexivity|].
+        split; [exists (x :: l); split; [exact E1|discriminate]|].
+        unfold stream. cbn [flat_map]. fold (stream R). rewrite E1, E2, <- app_assoc. reflexivity.
+    + destruct (IH l t E2) as (R1 & R2 & q & ER & Es & Ht & E3).
+      exists (f :: R1), R2, q. split; [rewrite ER; reflexivity|].
+      split; [unfold stream; cbn [flat_map]; fold (stream R1); rewrite E1, Es, app_assoc; reflexivity|].
+      split; [exact Ht|exact E3].
+Qed.
+
+Fixpoint rtu_feed_dels (cfg : fcfg) (st : rstate) (chunks : list bytes) : list delivered * list fexit :=
+  match chunks with
+  | [] => ([], [])
+  | c :: t => let '(st1, ds, x) := rtu_recv cfg st c in
+              let '(ds', xs) := rtu_feed_dels cfg st1 t in (ds ++ ds', x :: xs)
+  end.
+
+(* CHUNKING INDEPENDENCE: however the byte stream of valid frames is cut into reads (any number
+   of cuts, any positions, empty reads, several frames per read), exactly the frames of served
+   units are delivered, in order, and no call raises.  [b] = bytes already buffered. *)
+Theorem rtu_chunked cfg : forall chunks R b st,
+  r_buf st = b -> Forall (vf cfg) R -> tail_ok b R -> hdr_for R (r_hdr st) ->
+  stream R = b ++ concat chunks ->
+  rtu_feed_dels cfg st chunks = (msgs R, map (fun _ => FOk) chunks).
+Proof.
+  induction chunks as [|c cs IH]; intros R b st Hb Hall Ht Hh Hs.
+  - cbn [concat] in Hs. rewrite app_nil_r in Hs. destruct R as [|f R]; [reflexivity|].
+    exfalso. destruct Ht as (q' & E & Hq'). unfold stream in Hs. cbn [flat_map] in Hs. rewrite E, <- app_assoc in Hs.
+    rewrite <- (app_nil_r b) in Hs at 2. apply app_inv_head in Hs. apply app_eq_nil in Hs. destruct Hs as [Hs _]. exact (Hq' Hs).
+  - cbn [concat] in Hs. rewrite app_assoc in Hs.
+    destruct (stream_split R (b ++ c) (concat cs) Hs) as (R1 & R2 & q & ER & Es & Ht2 & E3).
+    subst R. apply Forall_app in Hall. destruct Hall as [H1 H2].
+    cbn [rtu_feed_dels]. unfold rtu_recv. rewrite Hb, Es.
+    destruct (rtu_loop_drain cfg R1 (S (S (length (stream R1 ++ q)))) R2 q (r_hdr st) [] H1 H2 Ht2 Hh) as (h' & RL & Hw).
+    { pose proof (stream_len R1). rewrite app_length. lia. }
+    cbn [r_buf] in RL |- *. rewrite RL. cbn [app].
+    rewrite (IH R2 q {| r_buf := q; r_hdr := h' |} eq_refl H2 Ht2 Hw E3).
+    unfold msgs. rewrite flat_map_app. reflexivity.
+Qed.
+
+Lemma tail_ok_nil R : tail_ok [] R.
+Proof.
+  destruct R as [|f R]; [reflexivity|]. exists (adu_of f). split; [reflexivity|].
+  pose proof (adu_nonempty f). intro E. rewrite E in H. cbn in H. lia.
+Qed.
+
+(* from a synchronised receiver (empty buffer; header {} or the initial dict) *)
+Theorem rtu_chunked_sync cfg chunks R st :
+  r_buf st = [] -> (r_hdr st = hdr_empty \/ r_hdr st = r_hdr rtu_init) ->
+  Forall (vf cfg) R -> concat chunks = stream R ->
+  rtu_feed_dels cfg st chunks = (msgs R, map (fun _ => FOk) chunks).
+Proof.
+  intros Hb Hh Hall Hs. apply (rtu_chunked cfg chunks R [] st Hb Hall (tail_ok_nil R)).
+  - destruct R as [|f R]; [exact I|]. destruct Hh as [-> | ->]; [left|right; left]; reflexivity.
+  - rewrite Hs. reflexivity.
+Qed.
+
+(* whole frame to a fresh receiver *)
+Theorem rtu_whole_frame cfg u pdu : valid_frame cfg true u pdu ->
+  rtu_recv cfg rtu_init (spec_adu_rtu u pdu) = ({| r_buf := []; r_hdr := hdr_empty |}, [(pdu, zb u)], FOk).
+Proof.
+  intros V. unfold rtu_recv. cbn [r_buf rtu_init app].
+  rewrite <- (app_nil_r (spec_adu_rtu u pdu)) at 2.
+  rewrite (rtu_loop_complete cfg _ (r_hdr rtu_init) true u pdu [] [] V); [|right; left; reflexivity|reflexivity].
+  destruct (length (spec_adu_rtu u pdu ++ [])) eqn:L; [rewrite app_nil_r in L; unfold spec_adu_rtu, with_crc in L; rewrite app_length in L; cbn in L; lia|].
+  apply rtu_loop_empty.
+Qed.
+
+Example valid_frame_example :
+  let cfg := {| cf_dec := fun _ => DMsg; cf_rules := server_decoder; cf_units := [1]; cf_single := false |} in
+  valid_frame cfg true 1 [3; 0; 1; 0; 2]%N /\ valid_frame cfg true 1 [16; 0; 1; 0; 1; 2; 123; 125]%N /\
+  valid_frame cfg false 9 [3; 0; 1; 0; 2]%N.
+Proof.
+  cbv zeta. repeat split; try reflexivity; try (intro; reflexivity); try (intro HH; discriminate HH).
+  - exists 3%N, [0; 1; 0; 2]%N. repeat split; vm_compute; reflexivity.
+  - exists 16%N, [0; 1; 0; 1; 2; 123; 125]%N. repeat split; vm_compute; reflexivity.
+  - exists 3%N, [0; 1; 0; 2]%N. repeat split; vm_compute; reflexivity.
 Qed.
 
 (* ------------------------------------------------------------------ C03: the size oracle on well-shaped frames *)
@@ -783,27 +955,6 @@ Proof.
   cbn [frame_size]. rewrite (py_index_ok f p b Hp Hn). cbn [bind]. rewrite cc_rtu_size_closed. f_equal. lia.
 Qed.
 
-Example valid_frame_example :
-  let cfg := {| cf_dec := fun _ => DMsg; cf_rules := server_decoder; cf_units := [1]; cf_single := false |} in
-  valid_frame cfg 1 [3; 0; 1; 0; 2]%N /\ valid_frame cfg 1 [16; 0; 1; 0; 1; 2; 123; 125]%N.
-Proof.
-  cbv zeta. split; constructor; try reflexivity.
-  - exists 3%N, [0; 1; 0; 2]%N. repeat split; vm_compute; reflexivity.
-  - exists 16%N, [0; 1; 0; 1; 2; 123; 125]%N. repeat split; vm_compute; reflexivity.
-Qed.
-
-Example opr_example :
-  let fa := spec_adu_rtu 1 [3; 0; 1; 0; 2]%N in
-  opr [] [(1, [3; 0; 1; 0; 2]); (1, [3; 0; 1; 0; 2])]%N [firstn 3 fa; []; skipn 3 fa ++ firstn 1 fa; skipn 1 fa; []].
-Proof.
-  cbv zeta. cbn [opr].
-  left. exists [1; 0; 2; 149; 203]%N. split; [vm_compute; reflexivity|]. split; [discriminate|].
-  left. exists [1; 0; 2; 149; 203]%N. split; [vm_compute; reflexivity|]. split; [discriminate|].
-  right. exists [1]%N. split; [vm_compute; reflexivity|]. split.
-  { exists [3; 0; 1; 0; 2; 149; 203]%N. split; [vm_compute; reflexivity|discriminate]. }
-  right. exists []. split; [vm_compute; reflexivity|]. split; [reflexivity|].
-  cbn. repeat split; reflexivity.
-Qed.
 
 (* ------------------------------------------------------------------ C07 composition: gate + detection
    a corrupted frame handed to an empty receiver: nothing is delivered whose frame has the
@@ -815,16 +966,17 @@ Theorem rtu_no_delivery_same_extent cfg st frame' st' ds x :
   forall pdu uid, In (pdu, uid) ds -> forall u, uid = Z.of_N u -> length (spec_adu_rtu u pdu) <> length frame'.
 Proof.
   intros Hk Hb Hw Hbad R pdu uid Hin u Hu Hlen.
-  destruct (rtu_gate cfg st frame' st' ds x Hk) with (pdu := pdu) (uid := uid) as (u' & rest & Hsplit & Hu' & Hok & _);
+  destruct (rtu_gate cfg st frame' st' ds x Hk) with (pdu := pdu) (uid := uid) as (u' & pre & rest & Hsplit & Hu' & Hok & _);
     [rewrite Hb; exact Hw | exact R | exact Hin |].
   assert (u' = u) by lia. subst u'.
   rewrite Hb in Hsplit. cbn [app] in Hsplit.
-  assert (rest = []).
-  { apply (f_equal (@length N)) in Hsplit. rewrite app_length in Hsplit. destruct rest; [reflexivity|cbn [length] in Hsplit; lia]. }
-  subst rest. rewrite app_nil_r in Hsplit. rewrite <- Hsplit in Hok. congruence.
+  assert (pre = [] /\ rest = []).
+  { apply (f_equal (@length N)) in Hsplit. rewrite !app_length in Hsplit.
+    destruct pre, rest; cbn [length] in Hsplit; try (split; reflexivity); lia. }
+  destruct H as [-> ->]. cbn [app] in Hsplit. rewrite app_nil_r in Hsplit. rewrite <- Hsplit in Hok. congruence.
 Qed.
 
-(* ------------------------------------------------------------------ C11: explicit recovery bound, server decoder table *)
+(* ------------------------------------------------------------------ C11: explicit recovery / backlog bound, server decoder table *)
 
 (* on the request table every size rule is total once 11 bytes are buffered and never
    returns more than 268 = 255 + 10 + 3 (byte count at position 10: Read/Write Multiple) *)
@@ -910,58 +1062,6 @@ Proof.
   rewrite firstn_length, skipn_length. unfold zlen. lia.
 Qed.
 
-(* RECOVERY BOUND (request direction): whatever the buffer holds (any garbage) and whatever
-   bounded header is pending, once 268 bytes are buffered a call cannot wait any longer: it
-   raises (the serial handlers then reset the framer), or it drops everything and is
-   synchronised, or it delivers a message (justified, see the gate) and consumes at least 4
-   bytes with an empty header. *)
-Theorem rtu_recover_server cfg st chunk st' ds x :
-  cf_rules cfg = server_decoder -> wfb (r_buf st ++ chunk) = true -> hdr_bounded (r_hdr st) ->
-  268 <= zlen (r_buf st ++ chunk) ->
-  rtu_recv cfg st chunk = (st', ds, x) ->
-  x <> FOk \/
-  (r_buf st' = [] /\ r_hdr st' = hdr_empty /\ ds = []) \/
-  (exists d, ds = [d] /\ r_hdr st' = hdr_empty /\ zlen (r_buf st') + 4 <= zlen (r_buf st ++ chunk)).
-Proof.
-  intros Hr Hw Hh Hl. unfold rtu_recv. set (buf := r_buf st ++ chunk) in *.
-  (* isFrameReady is True *)
-  assert (R : exists h1, rtu_ready cfg {| r_buf := buf; r_hdr := r_hdr st |} = ({| r_buf := buf; r_hdr := h1 |}, Ok true)).
-  { unfold rtu_ready. cbn [r_buf r_hdr]. rewrite rc_ready_closed. replace (zlen buf >? 1) with true by lia.
-    destruct Hh as [He | (n & Hn & Hb)].
-    - rewrite He. destruct (rtu_populate_total cfg buf (r_hdr st) Hr Hw ltac:(lia)) as (u & n & c & P & Hn). rewrite P.
-      cbn [hdr_is_empty h_uid h_len h_crc r_hdr]. eexists. rewrite (rc_ready2_closed (zlen buf) n).
-      replace (zlen buf >=? n) with true by lia. reflexivity.
-    - assert (Hne : hdr_is_empty (r_hdr st) = false) by (unfold hdr_is_empty; rewrite Hn; destruct (h_uid (r_hdr st)); reflexivity).
-      rewrite Hne. cbn [r_hdr]. rewrite Hne, Hn. eexists. rewrite (rc_ready2_closed (zlen buf) n).
-      replace (zlen buf >=? n) with true by lia. reflexivity. }
-  destruct R as [h1 R]. rewrite R.
-  (* checkFrame *)
-  unfold rtu_check, rtu_check_body.
-  destruct (rtu_populate_total cfg buf h1 Hr Hw ltac:(lia)) as (u & s & c & P & Hs). rewrite P.
-  cbn [r_hdr h_len r_buf]. rewrite rc_chk_data_hi_closed, rc_chk_crc_lo_closed, rc_chk_crc_hi_closed.
-  destruct (split_at2 buf (s - 2) ltac:(lia) ltac:(lia)) as (xs & c0 & c1 & z & Eb & Hx).
-  rewrite Eb. rewrite (pyslice_prefix xs ([c0; c1] ++ z)) by lia.
-  rewrite (pyslice_mid xs [c0; c1] z) by (unfold zlen in *; cbn [length]; lia).
-  rewrite py_index_app_head.
-  assert (E2 : py_index [c0; c1] 1 = Ok c1) by (apply py_index_ok; [lia | reflexivity]). rewrite E2.
-  assert (Hwx : wfb xs = true) by (rewrite Eb, wfb_app in Hw; apply andb_prop in Hw; tauto).
-  rewrite rc_chk_crc_val_closed, py_check_crc_spec by exact Hwx.
-  destruct (Z.of_N (swap16 (crc16_bitwise xs)) =? Z.shiftl (zb c0) 8 + zb c1).
-  2: { cbn [caught_by_check rtu_reset r_buf]. intros H. inversion H. right. left. repeat split; reflexivity. }
-  cbn [r_hdr h_uid].
-  destruct (validate_unit cfg (Some (zb u))) as [[|]|e].
-  3: { intros H. inversion H. left. discriminate. }
-  2: { intros H. inversion H. right. left. repeat split; reflexivity. }
-  unfold rtu_process, rtu_get_frame. cbn [r_hdr h_len h_uid r_buf].
-  destruct (cf_dec cfg _); try (intros H; inversion H; left; discriminate).
-  intros H. inversion H. right. right. eexists. split; [reflexivity|]. split; [reflexivity|].
-  unfold rtu_advance. cbn [r_hdr h_len r_buf]. rewrite rc_adv_closed.
-  fold (zlen (pyslice (xs ++ [c0; c1] ++ z) (Some s) None)). unfold zlen at 1.
-  change (xs ++ c0 :: c1 :: z) with (xs ++ [c0; c1] ++ z). rewrite <- Eb.
-  rewrite pyslice_from_len' by lia. lia.
-Qed.
-
-
 Lemma server_rule_b fc : rule_tot_b (lookup_rule server_decoder fc) = true.
 Proof.
   apply (lookup_rule_P (fun r => rule_tot_b r = true)); [|reflexivity].
@@ -986,32 +1086,100 @@ Proof. right. exists 0. split; [reflexivity|lia]. Qed.
 Lemma hdr_bounded_empty : hdr_bounded hdr_empty.
 Proof. left. reflexivity. Qed.
 
-Theorem rtu_recv_hdr_bounded cfg st chunk st' ds :
-  cf_rules cfg = server_decoder -> wfb (r_buf st ++ chunk) = true -> hdr_bounded (r_hdr st) ->
-  rtu_recv cfg st chunk = (st', ds, FOk) -> hdr_bounded (r_hdr st').
+(* with 268 bytes buffered isFrameReady cannot say "not yet" *)
+Lemma rtu_ready_long cfg buf h : cf_rules cfg = server_decoder -> wfb buf = true -> hdr_bounded h ->
+  268 <= zlen buf -> exists h1, rtu_ready cfg {| r_buf := buf; r_hdr := h |} = ({| r_buf := buf; r_hdr := h1 |}, Ok true).
 Proof.
-  intros Hr Hw Hh. unfold rtu_recv. set (st0 := {| r_buf := r_buf st ++ chunk; r_hdr := r_hdr st |}).
-  destruct (rtu_ready cfg st0) as [st1 [[|]|e]] eqn:R; try (intros H; discriminate H).
-  - (* ready: every normal outcome ends with an empty header *)
-    destruct (rtu_check cfg st1) as [st2 [[|]|e]]; try (intros H; discriminate H).
-    + destruct (validate_unit cfg _) as [[|]|e]; try (intros H; discriminate H).
-      * unfold rtu_process. destruct (rtu_get_frame st2); try (intros H; discriminate H).
-        destruct (cf_dec cfg _); try (intros H; discriminate H).
-        destruct (h_uid (r_hdr st2)); try (intros H; discriminate H).
-        intros H. inversion H. unfold rtu_advance. destruct (h_len (r_hdr st2)); apply hdr_bounded_empty.
-      * intros H. inversion H. apply hdr_bounded_empty.
-    + destruct (r_buf st2); intros H; inversion H; apply hdr_bounded_empty.
-  - (* not ready: header unchanged, {} , or freshly populated from the oracle *)
-    intros H. inversion H. subst st1. clear H. revert R. unfold rtu_ready.
-    destruct (beval _ (rc_ready rtu)); [|intros R; inversion R; exact Hh].
-    cbn [st0 r_hdr].
-    destruct (hdr_is_empty (r_hdr st)) eqn:He.
-    + destruct (rtu_populate cfg st0) as [sp [e|]] eqn:P.
-      * destruct e; intros R; inversion R; subst; try apply hdr_bounded_empty.
-      * pose proof P as P'. apply rtu_populate_ok in P'. destruct P' as (u & fc & size & _ & _ & Fs & _ & _ & Hl).
-        rewrite Hr in Fs. cbn [st0 r_buf] in Fs.
-        pose proof (rule_max_of_bool _ _ _ (server_rule_b (zb fc)) Hw Fs) as Hm.
-        destruct (hdr_is_empty (r_hdr sp)); [intros R; inversion R; subst; right; exists size; split; assumption|].
-        rewrite Hl. intros R. inversion R. subst. right. exists size. split; assumption.
-    + unfold st0. cbn [r_hdr]. rewrite He. destruct (h_len (r_hdr st)); intros R; inversion R; subst; exact Hh.
+  intros Hr Hw Hh Hl. unfold rtu_ready. cbn [r_buf r_hdr]. rewrite rc_ready_closed. replace (zlen buf >? 1) with true by lia.
+  destruct Hh as [He | (n & Hn & Hb)].
+  - rewrite He. destruct (rtu_populate_total cfg buf h Hr Hw ltac:(lia)) as (u & n & c & P & Hn). rewrite P.
+    cbn [hdr_is_empty h_uid h_len h_crc r_hdr]. eexists. rewrite (rc_ready2_closed (zlen buf) n).
+    replace (zlen buf >=? n) with true by lia. reflexivity.
+  - assert (Hne : hdr_is_empty h = false) by (unfold hdr_is_empty; rewrite Hn; destruct (h_uid h); reflexivity).
+    rewrite Hne. cbn [r_hdr]. rewrite Hne, Hn. eexists. rewrite (rc_ready2_closed (zlen buf) n).
+    replace (zlen buf >=? n) with true by lia. reflexivity.
+Qed.
+
+(* ... and checkFrame cannot say "incomplete": it accepts, or the CRC fails and everything is dropped *)
+Lemma rtu_check_long cfg buf h st2 r : cf_rules cfg = server_decoder -> wfb buf = true -> 268 <= zlen buf ->
+  rtu_check cfg {| r_buf := buf; r_hdr := h |} = (st2, r) -> r = Ok true \/ (r = Ok false /\ r_buf st2 = []).
+Proof.
+  intros Hr Hw Hl. unfold rtu_check, rtu_check_body.
+  destruct (rtu_populate_total cfg buf h Hr Hw ltac:(lia)) as (u & s & c & P & Hs). rewrite P.
+  cbn [r_hdr h_len r_buf]. rewrite rc_chk_data_hi_closed, rc_chk_crc_lo_closed, rc_chk_crc_hi_closed.
+  destruct (split_at2 buf (s - 2) ltac:(lia) ltac:(lia)) as (xs & c0 & c1 & z & Eb & Hx).
+  rewrite Eb. rewrite (pyslice_prefix xs ([c0; c1] ++ z)) by lia.
+  rewrite (pyslice_mid xs [c0; c1] z) by (unfold zlen in *; cbn [length]; lia).
+  rewrite py_index_app_head.
+  assert (E2 : py_index [c0; c1] 1 = Ok c1) by (apply py_index_ok; [lia | reflexivity]). rewrite E2.
+  assert (Hwx : wfb xs = true) by (rewrite Eb, wfb_app in Hw; apply andb_prop in Hw; tauto).
+  rewrite rc_chk_crc_val_closed, py_check_crc_spec by exact Hwx.
+  destruct (Z.of_N (swap16 (crc16_bitwise xs)) =? Z.shiftl (zb c0) 8 + zb c1); intros H; inversion H.
+  - left. reflexivity.
+  - right. split; reflexivity.
+Qed.
+
+(* isFrameReady keeps the header bounded whenever it returns normally *)
+Lemma rtu_ready_bounded cfg st st1 b : cf_rules cfg = server_decoder -> wfb (r_buf st) = true ->
+  hdr_bounded (r_hdr st) -> rtu_ready cfg st = (st1, Ok b) -> hdr_bounded (r_hdr st1).
+Proof.
+  intros Hr Hw Hh. unfold rtu_ready.
+  destruct (beval _ (rc_ready rtu)); [|intros R; inversion R; subst; exact Hh].
+  destruct (hdr_is_empty (r_hdr st)) eqn:He.
+  - destruct (rtu_populate cfg st) as [sp [e|]] eqn:P.
+    + destruct e; intros R; inversion R; subst; apply hdr_bounded_empty.
+    + pose proof P as P'. apply rtu_populate_ok in P'. destruct P' as (u & fc & size & _ & _ & Fs & _ & _ & Hl).
+      rewrite Hr in Fs.
+      pose proof (rule_max_of_bool _ _ _ (server_rule_b (zb fc)) Hw Fs) as Hm.
+      destruct (hdr_is_empty (r_hdr sp)); [intros R; inversion R; subst; right; exists size; split; assumption|].
+      rewrite Hl. intros R. inversion R. subst. right. exists size. split; assumption.
+  - rewrite He. destruct (h_len (r_hdr st)); intros R; inversion R; subst; exact Hh.
+Qed.
+
+(* RECOVERY / BACKLOG BOUND (request direction).  For EVERY buffer content (any garbage, any
+   number of frames per read) and every pending bounded header: a call that returns normally
+   leaves fewer than 268 = 255 + 10 + 3 bytes buffered (the largest extent the request-table size
+   oracle can return) and a bounded header again.  Hence the backlog never exceeds 267 bytes
+   however the traffic arrives, and a candidate frame never waits for more than 268 bytes: it is
+   delivered (justified, rtu_gate), skipped, or dropped with everything behind it. *)
+Lemma rtu_loop_backlog cfg : cf_rules cfg = server_decoder -> forall fuel st acc st' ds,
+  wfb (r_buf st) = true -> hdr_bounded (r_hdr st) ->
+  rtu_loop fuel cfg st acc = (st', ds, FOk) -> zlen (r_buf st') < 268 /\ hdr_bounded (r_hdr st').
+Proof.
+  intros Hr. assert (Hk : known_rules (cf_rules cfg)) by (left; exact Hr).
+  induction fuel as [|k IH]; intros st acc st' ds Hw Hh H; cbn [rtu_loop] in H; [discriminate H|].
+  destruct (rtu_ready cfg st) as [st1 [[|]|e]] eqn:R; try discriminate H.
+  - pose proof (rtu_ready_buf' _ _ _ _ R) as B1. pose proof (rtu_ready_bounded _ _ _ _ Hr Hw Hh R) as Hb1.
+    destruct (rtu_check cfg st1) as [st2 [[|]|e]] eqn:C; try discriminate H.
+    + apply rtu_check_true in C; [|exact Hk|rewrite B1; exact Hw].
+      destruct C as (u & body & c0 & c1 & rest & Hsplit & Hb2 & Hu & Hl & Hlen & _).
+      assert (Hb2' : r_buf st2 = (u :: body) ++ [c0; c1] ++ rest) by (rewrite Hb2; exact Hsplit).
+      destruct (rtu_process_spec cfg st2 u body c0 c1 rest Hb2' Hu Hl Hlen) as [P A].
+      assert (Hwr : wfb rest = true).
+      { rewrite B1 in Hsplit. rewrite Hsplit in Hw. rewrite !wfb_app in Hw. apply andb_prop in Hw. destruct Hw as [_ Hw]. apply andb_prop in Hw. tauto. }
+      destruct (validate_unit cfg _) as [[|]|e]; try discriminate H.
+      * rewrite P in H. destruct (cf_dec cfg body); try discriminate H.
+        apply IH in H; [exact H|exact Hwr|apply hdr_bounded_empty].
+      * rewrite A in H. apply IH in H; [exact H|exact Hwr|apply hdr_bounded_empty].
+    + destruct (r_buf st2) as [|y t] eqn:E2.
+      * apply IH in H; [exact H|reflexivity|apply hdr_bounded_empty].
+      * inversion H. subst. cbn [r_buf r_hdr]. split; [|apply hdr_bounded_empty].
+        destruct (rtu_check_false_resets _ _ _ C) as [[E _] | E]; [rewrite E in E2; discriminate E2|].
+        destruct (Z_lt_ge_dec (zlen (r_buf st1)) 268) as [Hlt|Hge]; [rewrite <- E2, E; exact Hlt|].
+        exfalso. destruct st1 as [b1 h1]. cbn [r_buf] in *.
+        destruct (rtu_check_long cfg b1 h1 st2 (Ok false) Hr ltac:(rewrite B1; exact Hw) ltac:(lia) C) as [F | [_ F]];
+          [discriminate F | rewrite F in E2; discriminate E2].
+  - inversion H. subst. pose proof (rtu_ready_buf' _ _ _ _ R) as B1.
+    split; [|exact (rtu_ready_bounded _ _ _ _ Hr Hw Hh R)].
+    destruct (Z_lt_ge_dec (zlen (r_buf st)) 268) as [Hlt|Hge]; [rewrite B1; exact Hlt|].
+    exfalso. destruct st as [b0 h0]. cbn [r_buf r_hdr] in *.
+    destruct (rtu_ready_long cfg b0 h0 Hr Hw Hh ltac:(lia)) as [h1 R']. rewrite R' in R. discriminate R.
+Qed.
+
+Theorem rtu_recover_server cfg st chunk st' ds :
+  cf_rules cfg = server_decoder -> wfb (r_buf st ++ chunk) = true -> hdr_bounded (r_hdr st) ->
+  rtu_recv cfg st chunk = (st', ds, FOk) -> zlen (r_buf st') < 268 /\ hdr_bounded (r_hdr st').
+Proof.
+  intros Hr Hw Hh R. unfold rtu_recv in R.
+  eapply (rtu_loop_backlog cfg Hr); [| |exact R]; cbn [r_buf r_hdr]; assumption.
 Qed.
